@@ -34,9 +34,9 @@ Proof.
   - exact IH.
 Qed.
 
-Lemma check_varpos_bridge p : gen_check_has_var_positional p = is_kind VarPos p.
+Lemma check_varpos_bridge p : gen_check_any1 p = is_kind VarPos p.
 Proof. destruct p as [n k d]. destruct k; reflexivity. Qed.
-Lemma check_varkw_bridge p : gen_check_has_var_keyword p = is_kind VarKw p.
+Lemma check_varkw_bridge p : gen_check_any2 p = is_kind VarKw p.
 Proof. destruct p as [n k d]. destruct k; reflexivity. Qed.
 
 (* the body of the first loop, for every parameter and whatever the two flags are *)
